@@ -447,7 +447,8 @@ def eval_C07(doc):
                 vs.append(oa.V("C07/pruned-differs-although-width-covers-all/" + c, "W=%r largest=%r" % (W, full), a))
         else:
             if ia > ib:
-                vs.append(oa.V("C07/pruned-longer-than-unpruned", "pruned=%r unpruned=%r" % (ia, ib), a))
+                how = "with-non-emitting" if doc["cfg"].get("non_emitting_states", True) else "emitting-only"
+                vs.append(oa.V("C07/pruned-longer-than-unpruned/" + how, "pruned=%r unpruned=%r" % (ia, ib), a))
             elif ia == n - 1 and ib == n - 1:
                 ea, eb = a.obs["bestE"], b.obs["bestE"]
                 if ea > eb and not num_equal(ea, eb, 1e-9, 1e-9):
